@@ -100,6 +100,30 @@ func oneRun(r *rep.Report, spec runSpec) {
 		e.Err = drv.ErrStr(err)
 		l.add(e)
 	}
+	// addRecD: every-second job whose first callback takes `first`, later ones 40 ms
+	var startedGen sync.Map
+	addRecD := func(id string, first time.Duration) {
+		gens[id]++
+		g := gens[id]
+		e := ev{T: "add", Id: id, Gen: g, Rec: true, Call: l.now()}
+		var nth int64
+		err := c.Add(ctx, id, "* * * * * * *", func(t time.Time) error {
+			f := ev{T: "fire", Id: id, Gen: g, Rec: true, Call: l.now()}
+			atomic.AddInt64(&started, 1)
+			startedGen.Store(fmt.Sprintf("%s#%d", id, g), true)
+			if atomic.AddInt64(&nth, 1) == 1 {
+				time.Sleep(first)
+			} else {
+				time.Sleep(40 * time.Millisecond)
+			}
+			f.Ret = l.now()
+			l.add(f)
+			return nil
+		})
+		e.Ret = l.now()
+		e.Err = drv.ErrStr(err)
+		l.add(e)
+	}
 	addRec := func(id string) {
 		gens[id]++
 		g := gens[id]
@@ -186,6 +210,20 @@ func oneRun(r *rep.Report, spec runSpec) {
 		}
 		add("j0", ms(300)) // replaces the running recurring job by a one-shot
 		quiet(ms(2600))
+	case "replace-recurring-both-running", "rem-readd-recurring-both-running":
+		// J1's first callback is still running when its replacement J2 (same id) fires,
+		// and J1 returns while J2's callback runs: J1 must not come back, J2 must go on
+		addRecD("j0", ms(1500+rng.Intn(400)))
+		deadline := time.Now().Add(2500 * time.Millisecond)
+		for time.Now().Before(deadline) && atomic.LoadInt64(&started) == 0 {
+			time.Sleep(time.Millisecond)
+		}
+		time.Sleep(ms(20 + rng.Intn(60)))
+		if spec.Pattern == "rem-readd-recurring-both-running" {
+			rem("j0")
+		}
+		addRecD("j0", ms(2000+rng.Intn(300)))
+		quiet(ms(6200))
 	case "recurring":
 		addRec("j0")
 		add("j1", ms(300))
@@ -312,6 +350,23 @@ func check(r *rep.Report, spec runSpec, evs []ev, end int64, canaryLate time.Dur
 					break
 				}
 			}
+			if lf.endedBy == nil && end-a.Ret > (5500*time.Millisecond).Nanoseconds() && !inWindow(end-(3500*time.Millisecond).Nanoseconds(), end) {
+				// bounded progress of a live every-second job whose callbacks take < 2.4 s: some run
+				// ended in the last 3.5 s of the run
+				recent := false
+				for _, f := range lf.fires {
+					if f.Ret > end-(3500*time.Millisecond).Nanoseconds() {
+						recent = true
+					}
+				}
+				if !recent {
+					if canaryLate > 500*time.Millisecond {
+						r.Inconclusive("canary late")
+					} else {
+						r.Violate("", "a live recurring job completed no run in the last 3.5 s of the run (the loop is not suspended or paused)", lw)
+					}
+				}
+			}
 			if lf.endedBy != nil && (lf.endedBy.T == "rem" || lf.endedBy.T == "add") {
 				late := 0
 				for _, f := range lf.fires {
@@ -374,7 +429,7 @@ func main() {
 	e := rep.GetEnv()
 	r := rep.New(e)
 	r.Note("hooks_compiled_in", hook.Enabled())
-	patterns := []string{"rem-head-then-quiet", "replace-head-later", "add-earlier-than-head", "add-during-suspend", "pause", "rem-recurring-during-run", "replace-recurring-during-run", "recurring", "random", "random", "random"}
+	patterns := []string{"rem-head-then-quiet", "replace-head-later", "add-earlier-than-head", "add-during-suspend", "pause", "rem-recurring-during-run", "replace-recurring-during-run", "replace-recurring-both-running", "rem-readd-recurring-both-running", "recurring", "random", "random", "random"}
 	rounds := e.Pick(1, 4)
 	var wg sync.WaitGroup
 	var mu sync.Mutex
